@@ -9,7 +9,11 @@ use serde_json::json;
 
 pub fn spaces(tier: Tier) -> Vec<Space<'static>> {
     let base: &[RVal] = if tier.thorough() { univ::p5() } else { univ::d2() };
-    let d = docs(univ::containment_universe(base, if tier.thorough() { 5 } else { 4 }));
+    let d = docs({
+        let mut u = univ::containment_universe(base, if tier.thorough() { 5 } else { 4 });
+        u.extend(refmodel::gen::strkey_docs());
+        u
+    });
     let n = d.vals.len();
     let mut sp: Vec<Space> = vec![];
     let d1 = d.clone();
